@@ -238,6 +238,9 @@ def run(ctx):
     res.rule("OTHER", 15)
     from rules import structural
     structural.filter_mpt(ctx, FN)
+    from rules import hist
+    hist.run(ctx, res, 'C04')       # composition: histories through the public API against the reference model (rules/hist.py)
+    common.vacuity(res, "HISTORY", 9000)
     common.vacuity(res, "TABLE", 900)
     res.explanation = ("Every abstract input class of neighbors() (540 single-link rows, their FORWARD/BACKWARD mirror images, and ordered pairs of "
                        "rows with selective filters) was evaluated on the current source under abstract semantics and compared with the table "
